@@ -20,6 +20,7 @@ class Table:
 
     def __init__(self, n, streams=('a', 'b'), missing=None, with_axes=('time', 'z', 'lat', 'lon'), index_labels=None, concrete=None):
         self.concrete = concrete or {}       # column -> list of concrete numbers (instead of symbolic atoms)
+        self.extra_vars = {}                  # xarray only: variable name -> length, living on its own dimension without a time coordinate
         self.n = n
         self.t = [T0 + STEP * i for i in range(n)]
         self.streams = list(streams)
@@ -28,7 +29,7 @@ class Table:
         self.index_labels = index_labels      # row labels for the DataFrame front end (default 0..n-1)
 
     def cells(self, col, rows=None):
-        rows = range(self.n) if rows is None else rows
+        rows = range(self.extra_vars.get(col, self.n)) if rows is None else rows
         out = []
         for i in rows:
             if col == 'time':
@@ -103,8 +104,13 @@ def expected_direct(runner, table, contexts):
     for ci, c in enumerate(contexts):
         rows = table.rows_in(c['window'])
         for sid, keys in c['tests'].items():
-            if sid not in table.streams:
+            if sid not in table.streams and sid not in table.extra_vars:
                 continue
+            detached = sid in table.extra_vars
+            if detached:
+                rows = list(range(table.extra_vars[sid]))
+            else:
+                rows = table.rows_in(c['window'])
             for k in keys:
                 if isinstance(k, tuple):
                     continue
@@ -112,6 +118,9 @@ def expected_direct(runner, table, contexts):
                 kwargs = dict(kw)
                 ok = True
                 for nm in needs:
+                    if detached and nm != 'inp':
+                        ok = False          # a variable on its own dimension has no time / depth / position associated
+                        break
                     if nm == 'inp':
                         kwargs['inp'] = table.vec(sid, rows)
                     else:
@@ -207,6 +216,8 @@ def run_frontend(runner, frontend, table, config_source, single_stream=None):
                 variables[nm] = v
             if tvar is not None:
                 tvar.coords = {'time': tvar}
+            for nm, ln in table.extra_vars.items():
+                variables[nm] = DataVar(nm, {}, table.vec(nm), ('obs',))
             ds = DatasetStub(variables, {}, ('time',))
             cls = 'NetcdfStream' if frontend == 'netcdf' else 'XarrayStream'
             stream = it.instantiate(streams_mod.globals[cls], [ds], {}, None)
